@@ -52,9 +52,25 @@ static bool init_live(int md)
     return KIND == VK_OBJ ? binson_parser_init_object(L.p, vf_live_bufptr(&L), L.len) : binson_parser_init_array(L.p, vf_live_bufptr(&L), L.len);
 }
 
+/* What the parser object was used for before the to_string call under test (the answer must not depend on it):
+ * 0 fresh after init, 1 a partial traversal, 2 left in an error state (NULL name lookup), 3 an earlier to_string that failed for lack of room */
+static int HISTORY;
+static void apply_history(void)
+{
+    binson_parser *p = L.p;
+    size_t z = 1;
+    char one;
+    switch (HISTORY) {
+    case 1: if (KIND == VK_OBJ) binson_parser_go_into_object(p); else binson_parser_go_into_array(p); binson_parser_next(p); break;
+    case 2: binson_parser_field_with_length(p, NULL, 0); break;
+    case 3: binson_parser_to_string(p, &one, &z, false); break;
+    default: break;
+    }
+}
 /* one to_string call on an exact-size destination. cap < 0: NULL buffer with *size = stale */
 static bool call_to_string(long cap, size_t stale, bool nice, size_t *size_out, char **text_out)
 {
+    apply_history();
     char *blk = NULL, *dst = NULL;
     size_t sz;
     if (cap >= 0) {
@@ -215,7 +231,15 @@ static bool run_valid_once(void)
     vf_ref_render(D, &ref);
     if (LONGDOC) { NMARKS = vf_render_nmarks; vf_render_marks = NULL; }
     if (!init_live(needed_depth(D))) { vf_live_free(&L); return fail("init", "init rejects a valid document"); }
-    bool ok = P_C13 ? protocol_valid(NULL) : render_check(ref.s, ref.n);
+    bool ok = true;
+    if (P_C13) {
+        for (HISTORY = 0; ok && HISTORY < 4; HISTORY++) {
+            if (LONGDOC && (HISTORY == 1 || HISTORY == 3)) continue;
+            ok = protocol_valid(NULL);
+            if (!ok) { size_t l = strlen(why); snprintf(why + l, sizeof why - l, " [prior use of the parser: %d]", HISTORY); }
+        }
+        HISTORY = 0;
+    } else ok = render_check(ref.s, ref.n);
     vf_live_free(&L);
     return ok;
 }
@@ -305,9 +329,9 @@ static void on_doc_mut(vf_gen *g, void *u)
 static void long_family(void)
 {
     static vf_doc ld;
-    static uint8_t big[32768];
+    static uint8_t big[66000];
     for (size_t i = 0; i < sizeof big; i++) big[i] = (uint8_t) ('A' + i % 50);
-    static const size_t lens[] = { 127, 128, 200, 32767, 32768 };
+    static const size_t lens[] = { 127, 128, 255, 256, 300, 32767, 32768, 65535, 65536, 66000 };
     for (size_t li = 0; li < sizeof lens / sizeof lens[0]; li++)
         for (int shape = 0; shape < 4; shape++) {
             if (!take()) continue;
@@ -377,7 +401,7 @@ static void replay_main(void)
     char *t = vf_replay_load(vf_g.replay);
     char *root = vf_replay_get(t, "root"), *hex = vf_replay_get(t, "input_hex");
     if (!root || !hex) vf_die("replay file lacks root/input_hex");
-    static uint8_t bytes[200000];
+    static uint8_t bytes[400000];
     static vf_doc R;
     long n = vf_unhex(bytes, sizeof bytes, hex);
     if (n < 0) vf_die("bad input_hex");
@@ -420,11 +444,11 @@ int main(int argc, char **argv)
     if ((e = getenv("VERIF_NP"))) N_DOC_PLAIN = atoi(e);
     if (vf_g.replay) replay_main();
     int deaths = vf_run_workers(worker);
-    static char bound[1300];
+    static char bound[1600];
     snprintf(bound, sizeof bound,
              "every valid object- and array-rooted document with <= %d value tokens over 12 printable leaf classes (int 1.., INT64_MIN, doubles incl. -1e308 = 316 characters, "
              "strings incl. empty and embedded NUL, bytes of 0/3/40, booleans) and with <= %d value tokens over {int, bytes, {}, []} (all separator contexts), names incl. one with an "
-             "embedded NUL; 20 documents with string / bytes / name payloads of 127..32768 bytes (capacities within 3 of every token boundary)%s",
+             "embedded NUL; 40 documents with string / bytes / name payloads of 127..66000 bytes (capacities within 3 of every token boundary)%s",
              N_DOC, N_DOC_PLAIN,
              P_C13 ? "; each x EVERY capacity 0..need+3 x nice{false,true} on an exact-size heap destination, NULL query with 3 stale sizes; every INVALID input among the framed hostile token "
                      "sequences and the one-deviation mutants of small documents x capacities {NULL,0,1,16,4096}"
